@@ -9,7 +9,7 @@ RULE = ('families with a known emission position, each on 1-3 interleaved keys, 
         'event being pushed: (peritem) random pipelines of per-item operators and running aggregates, also inside '
         'group_by/roll/split/time_split and tee_map: every output appears in the step of a source item, nothing is held back '
         'to the completion step; (window) roll/split/time_split/batch with to_list: the result of a window, segment or batch '
-        'appears in the step of its closing item (time_split also with a closing_mapper, closing item included or not); (final) reduce/last/to_list/pad_end: only in the completion step. '
+        'appears in the step of its closing item (time_split also with a closing_mapper, closing item included or not); (zipwin) tumbling windows around tee_map(zip) of count(reduce) and a filter: the pair belongs to the closing step of its window and nothing pending survives a window; (final) reduce/last/to_list/pad_end: only in the completion step. '
         'non-trivial = >= 3 source items in some key; distinct = distinct JSON')
 ASSUMPTIONS = ['take/first do not end a key early in multiplexed mode (specified behaviour)']
 
@@ -53,7 +53,7 @@ def generate(rng, tier):
     n = {'quick': 500, 'thorough': 10000, 'search': 300}[tier]
     cases = []
     for _ in range(n):
-        fam = rng.choice(['peritem', 'peritem', 'batch', 'roll', 'split', 'tsplit', 'final'])
+        fam = rng.choice(['peritem', 'peritem', 'batch', 'roll', 'split', 'tsplit', 'final', 'zipwin'])
         trace = muxgen.gen_trace(rng, muxgen.INT, nkeys=rng.choice([1, 2, 3]), sorted_=(fam == 'tsplit'))
         if fam == 'peritem':
             ast = peritem_pipe(rng)
@@ -67,6 +67,11 @@ def generate(rng, tier):
         elif fam == 'split':
             par = rng.choice([['floordiv', 2], ['isodd'], ['floordiv', 3]])
             ast = [['split', par, [['to_list']]]]
+        elif fam == 'zipwin':
+            # tumbling windows around a zip of a completion-triggered branch and a per-item branch: the pair
+            # (count, first passing item) belongs to the window's closing step; nothing pending survives a window
+            par = [rng.randint(1, 4), rng.choice([['isodd'], ['gt', enc(rng.randint(0, 9))], ['lt', enc(rng.randint(0, 6))]])]
+            ast = [['roll', par[0], par[0], [['tee', 'zip', [[['count', 1]], [['filter', par[1]]]]]]]]
         elif fam == 'tsplit':
             closing = rng.choice([None, ['comp', ['mod', rng.choice([2, 3, 4])], ['eq', enc(0)]], ['isodd']])
             par = [rng.choice([None, 4, 6]), rng.choice([None, 2, 3]), closing, int(rng.random() < 0.6)]
@@ -117,6 +122,16 @@ def oracle(case, obs):
             for i in range(n):
                 want[lt['pos'][i]] += per[i]
             fin = tail
+        elif fam == 'zipwin':
+            w, pred = case['par'][0], py_fn(case['par'][1])
+            for a in range(0, n, w):
+                chunk = xs[a:a + w]
+                ok = [x for x in chunk if pred(x)]
+                res = [(len(chunk), ok[-1])] if ok else []     # a cell holds the latest value of its branch
+                if len(chunk) == w:
+                    want[lt['pos'][a + w - 1]] += res
+                else:
+                    fin = res
         elif fam == 'split':
             pred = py_fn(case['par'])
             for i in range(1, n):
@@ -180,6 +195,14 @@ def oracle(case, obs):
                 return {'sig': 'prompt:' + fam + ':completion', 'what': '%s key %s on %s: at completion %s was emitted, expected %s'
                         % (json.dumps(case['ast'])[:120], lt['key'], xs, got, fin)}
     return None
+
+
+def coq_term(case, obs):
+    base = muxlib.coq_muxcase(case['ast'], case['trace'], obs)
+    if case['family'] == 'peritem' and base.startswith('MC '):
+        # the family the oracle treats as per-item is inside the hypothesis of C11_nothing_held_back
+        return 'MCAnd (%s) (MCPerItem %s)' % (base, muxlib.coq_pipe(case['ast']))
+    return base
 
 
 def nontrivial(case, obs):
